@@ -30,7 +30,7 @@ PROBES = {'C04': 0}
 MIN_EVAL = {'quick': 3000, 'thorough': 100000}
 REQUIRED_COUNTERS = ['illformed', 'wellformed', 'model:noop', 'model_churn_rounds']
 ASSUMPTIONS = ['compensating errors are possible only if reference and code misread the docs the same way']
-MODELS_RANDOM = ['default', 'amr', 'noop', 'mini', 'inv'] + [f'rand{i}' for i in range(12)]
+MODELS_RANDOM = ['default', 'amr', 'noop', 'mini', 'inv', 'both', 'prefix'] + [f'rand{i}' for i in range(12)]
 
 
 def cases(ctx):
